@@ -20,7 +20,7 @@ TECHNIQUE = "deterministic network simulation with wildcard DNS and TLS observer
 LEVEL_TEXT = (
     "Seeded http/https URLs (names, mixed case, trailing dot, IDN, IPv4, bracketed IPv6 with and without zone, absent/default/odd/zero-padded ports, userinfo, dot-segments, illegal "
     "characters, empty path with query, fragments) through PoolManager and ProxyManager; observers at the simulated resolver, TCP layer, TLS layer and HTTP peers record what was "
-    "dialled, named and requested, and equivalent URL pairs must share one connection and produce identical bytes. Sampling."
+    "dialled, named and requested, equivalent URL pairs must share one connection and produce identical bytes, and look-alike pairs (trailing dot) must each be dialled under their own name. Sampling."
 )
 LEVEL_NOTE = "trusted: the reference URL reading in this module (authority = up to the first '/', '?', '#'; host after the last '@'); https runs use cert_reqs=CERT_NONE because only naming is observed"
 N = {"quick": 30000, "thorough": 500000}
